@@ -1969,9 +1969,12 @@ FFSM2_CONSTEXPR(11)
 const typename TaskListT<TP_, NC_>::Item&
 TaskListT<TP_, NC_>::operator[] (const Index i) const noexcept {
 	FFSM2_IF_ASSERT(verifyStructure());
-	FFSM2_VERIF_INDEX(i, CAPACITY);
 
+#ifdef FFSM2_VERIF
+	return FFSM2_VERIF_INDEX(i, CAPACITY), _items[i];
+#else
 	return _items[i];
+#endif
 }
 
 #if FFSM2_ASSERT_AVAILABLE()
